@@ -166,10 +166,16 @@ func c18One(c *run.C) {
 		// some call must return an error that is neither nil nor io.EOF, and
 		// no more than k-1 complete values may be delivered before it
 		var final error
-		for _, cr := range calls {
+		for i, cr := range calls {
 			if cr.err != nil {
 				final = cr.err
 				break
+			}
+			// a call that succeeds has delivered one complete value, also in
+			// a stream that turns out to be cut later on
+			if cr.docs != i+1 || !cr.idle {
+				c.Violationf("next", cd.Name+":cut-value-delivered-as-complete", "%s: Next #%d returned nil although the visitor has seen %d complete values (idle=%v) - the stream is cut inside value #%d (at %d)\nin=%s\nevents=%s", what, i+1, cr.docs, cr.idle, k, truncAt, hexs(data), m.Events[:cr.events])
+				return
 			}
 		}
 		if final == nil || final == io.EOF {
